@@ -1,6 +1,7 @@
 import XixiKV.Model.Batch
 import XixiKV.Drv.ShardIter
 import XixiKV.Drv.Datatype
+import XixiKV.Drv.Adopt
 import XixiKV.Model.Conc
 import XixiKV.Model.Lockset
 /-!
@@ -386,6 +387,10 @@ def step (ds : DState) (line : String) : DState × String :=
     else if op.startsWith "ix." ∨ op.startsWith "ixit." then
       match XixiKV.ShardIter.Drv.step ds.ix (op :: a) with
       | some (ix', out) => ({ ds with ix := ix' }, out)
+      | none => (ds, "?")
+    else if op = "adoptprefix" then
+      match XixiKV.Adopt.Drv.step ds.st (op :: a) with
+      | some (st', out) => ({ ds with st := st' }, out)
       | none => (ds, "?")
     else if op.startsWith "dt." then
       match XixiKV.Datatype.Drv.step ds.dt (op :: a) with
